@@ -133,6 +133,32 @@ CHECKS['C07'] = dict(
    technique="TLA+ input enumeration (TLC) + code->spec trace validation of every outcome",
    ref="5/C07")
 
+CHECKS['C05'] = dict(
+   text="CssValues.tla renders abstract value lists (37 shapes: integers, floats .5 / 1. / 1.25, negatives, every unit alias and explicit "
+        "unit, colours of 1/2/3/6 digits with and without alpha, the keyword a; with and without !; up to 3 values, two + joined "
+        "properties, simulated longer lists) with the minimal separators of the statement, runs the char-level transcription of the "
+        "real tokenizer (CssTokenizer.tla) on the rendering and lets TLC check the round trip (no value split, merged or swallowed), "
+        "the tiling of token spans and the colour invariants (printed hex parses back to the same channels, short form only when every "
+        "channel is a multiple of 17). For five option rows (css/scss/sass/stylus/less conventions x intUnit/floatUnit/unitAliases/"
+        "shortHex) the spec computes the exact output lines; every vector is expanded by the real code under the rows and compared "
+        "as strings (differences in white space only are diagnostics).",
+   note="Not generated (statement silent): -0, 4/5/7+ digit colours, more than four decimals, ! without value. A shared cache per syntax "
+        "keeps the run short.",
+   technique="TLA+ tokenizer machine round-trip theorem (TLC) + spec->code replay of expected output lines",
+   ref="5/C05")
+CHECKS['C06'] = dict(
+   text="The raw stylesheet snippet table of the tree under test is dumped to JSON and read by CssSnippets.tla, which splits keys at | "
+        "and takes definitions apart by its own rules, evaluates calculate_score with exact rationals and the find_best_match loop on "
+        "the whole table and checks for every key: it selects its own entry (OwnKey), no other key is a direct hit (NoOtherDirectHit), "
+        "every dash-free keyword typed in full in either letter case resolves to itself (KeywordSelf). Per key the spec prints kind, "
+        "property, first alternative and keywords; replay: expand(key) x syntaxes x {default, marking field callback}, key:KW and key-KW "
+        "in lower/upper/capitalised form for every keyword, section and property scopes, and the same for the table with user entries "
+        "(override of a built-in key, new property key, new raw key).",
+   note="Exhaustive over the table. Values are compared with blanks removed and tabstops replaced by placeholders; definitions with a "
+        "tabstop inside a quoted string and the hard-wired 'lg' gradient shortcut under scopes are not judged.",
+   technique="TLA+ evaluation of the scoring/matching machine on the real table (TLC, exhaustive) + spec->code replay",
+   ref="5/C06")
+
 NOT_YET = {}
 
 def main():
